@@ -15,7 +15,7 @@ The methods are walked by a small abstract interpreter (no code is run):
             `data[e].child`, integers as affine terms over the search index I,
             len(F.keys) and the child index J
   atoms     bound given; container empty; position of the bound in F
-            (before / hit / inner / past); F has a successor; child index is 0;
+            (before / hit / hit on the last key / inner / past); F has a successor; child index is 0;
             the child's smallest key is greater than the bound
   oracles   `_search` on a leaf returns I for a hit and -I-1 otherwise, with I
             tied to the position atom (before: 0, inner: 1..len-1, past: len);
@@ -79,8 +79,9 @@ def a_show(a):
 
 def _params(a, pos):
     """rewrite I and LEN over non-negative parameters s, t for the position
-    atom: hit: I = s, LEN = 1 + s + t; inner: I = 1 + s, LEN = 2 + s + t;
-    before: I = 0, LEN = 1 + t; past: I = LEN = 1 + t."""
+    atom: hit (not the last key): I = s, LEN = 2 + s + t; hitlast: I = t,
+    LEN = 1 + t; inner: I = 1 + s, LEN = 2 + s + t; before: I = 0,
+    LEN = 1 + t; past: I = LEN = 1 + t."""
     out = {}
 
     def add(k, c):
@@ -90,6 +91,8 @@ def _params(a, pos):
         if k == "I":
             if pos == "hit":
                 add("s", c)
+            elif pos == "hitlast":
+                add("t", c)
             elif pos == "inner":
                 add(1, c)
                 add("s", c)
@@ -102,7 +105,7 @@ def _params(a, pos):
                 raise AnalysisError("MINMAX-TABLE: search index used without a bound")
         elif k == "LEN":
             if pos == "hit":
-                add(1, c), add("s", c), add("t", c)
+                add(1, 2 * c), add("s", c), add("t", c)
             elif pos == "inner":
                 add(1, 2 * c), add("s", c), add("t", c)
             else:
@@ -223,7 +226,7 @@ class Walk(object):
             # d = (slot index) - I.  hit: the bound equals keys[I]; otherwise it
             # lies just below keys[I]
             signs = set()
-            if pos == "hit":
+            if pos in ("hit", "hitlast"):
                 if lo is None or lo < 0:
                     signs.add(-1)
                 if (lo is None or lo <= 0) and (hi is None or hi >= 0):
@@ -401,8 +404,9 @@ class Walk(object):
                 if recv[1] == "N":
                     return a_const(-1)
                 pos = self.s["pos"]
-                i = {"before": a_const(0), "past": a_var("LEN")}.get(pos, a_var("I"))
-                return i if pos == "hit" else a_add(a_neg(i), a_const(-1))
+                i = {"before": a_const(0), "past": a_var("LEN"),
+                     "hitlast": a_add(a_var("LEN"), a_const(-1))}.get(pos, a_var("I"))
+                return i if pos in ("hit", "hitlast") else a_add(a_neg(i), a_const(-1))
             if m == "_to_key" and len(args) == 1:
                 return args[0]            # already converted by the tree-level method
             if m in ("minKey", "maxKey"):
@@ -499,13 +503,21 @@ def _outcome(tree, kind, name, selfval, args, scen):
         v = w.run(r[1], selfval, args)
     except _Raise as x:
         return "raise " + x.name, r[1].lineno
-    # a found key may be returned as the (converted) bound or as the slot that equals it
-    if v == BOUND and scen.get("pos") == "hit":
-        v = ("key", "F", {"I": 1})
+    v = _found(v, scen)
     return show_val(v), r[1].lineno
 
 
-POS = ("before", "hit", "inner", "past")
+def _found(v, scen):
+    """a found key may be returned as the (converted) bound or as the slot that
+    equals it"""
+    if v == BOUND and scen.get("pos") == "hit":
+        return ("key", "F", {"I": 1})
+    if v == BOUND and scen.get("pos") == "hitlast":
+        return ("key", "F", {"LEN": 1, 1: -1})
+    return v
+
+
+POS = ("before", "hit", "hitlast", "inner", "past")
 
 
 def leaf_table():
@@ -530,6 +542,8 @@ def leaf_spec(kind, m, given, pos):
         return "F.keys[0]" if m == "minKey" else "F.keys[LEN-1]"
     if pos == "hit":
         return "F.keys[I]"
+    if pos == "hitlast":
+        return "F.keys[LEN-1]"
     if m == "minKey":
         return {"before": "F.keys[0]", "inner": "F.keys[I]", "past": "raise ValueError"}[pos]
     return {"before": "raise ValueError", "inner": "F.keys[I-1]", "past": "F.keys[LEN-1]"}[pos]
@@ -562,8 +576,7 @@ def _run_tree(tree, kind, leaf, m, args, scen):
         v = w.run(r[1], TREE, args)
     except _Raise as x:
         return "raise " + x.name, r[1].lineno
-    if v == BOUND and scen.get("pos") == "hit":
-        v = ("key", "F", {"I": 1})
+    v = _found(v, scen)
     return show_val(v), r[1].lineno
 
 
@@ -574,7 +587,7 @@ def tree_min_spec(kind, given, empty, pos, has_next):
         return "F.keys[0]"
     if pos == "past":
         return "N.keys[0]" if has_next else "raise ValueError"
-    return {"before": "F.keys[0]", "hit": "F.keys[I]", "inner": "F.keys[I]"}[pos]
+    return {"before": "F.keys[0]", "hit": "F.keys[I]", "hitlast": "F.keys[LEN-1]", "inner": "F.keys[I]"}[pos]
 
 
 def tree_max_table():
@@ -618,7 +631,7 @@ def py_check(res):
             res.findings.add(dict(
                 rule="MINMAX-TABLE", function="%s.%s" % ("_BucketBase" if True else kind, m), file=REL, line=ll[key],
                 construct="leaf %s, bound %s: %s (specified %s)" % (
-                    m, ("%s the keys" % {"before": "before", "hit": "among", "inner": "between two of", "past": "behind"}[pos])
+                    m, ("%s the keys" % {"before": "before", "hit": "among", "hitlast": "the last of", "inner": "between two of", "past": "behind"}[pos])
                     if given else "omitted", got, want),
                 detail="%s(b) of a leaf is the %s; with the bound %s it must be %s"
                        % (m, "least key >= b" if m == "minKey" else "greatest key <= b",
@@ -633,7 +646,8 @@ def py_check(res):
                 rule="MINMAX-TABLE", function="_Tree.minKey", file=REL, line=tl[key],
                 construct="tree minKey, %s, bound %s, found leaf %s a successor: %s (specified %s)" % (
                     "empty tree" if empty else "non-empty tree",
-                    ("%s the keys of the leaf it sorts into" % {"before": "before", "hit": "among", "inner": "between two of",
+                    ("%s the keys of the leaf it sorts into" % {"before": "before", "hit": "among", "hitlast": "the last of",
+                                                               "inner": "between two of",
                                                                "past": "behind", "-": "-"}[pos]) if given else "omitted",
                     "has" if nx else "without", got, want),
                 detail="a bound that falls behind the last key of the leaf it sorts into (the next "
